@@ -238,9 +238,6 @@ Section Final.
 End Final.
 
 (* ---------------------------------------------------------------- the per-rule hypothesis is decidable *)
-Definition pos_okb (k : mkind) (v : ustr) (tt : ttype) : bool :=
-  is_plain k && term_wf k v && (match tt with TLit => lits_neutral (segs_of k v) | _ => true end)
-  && forallb (fun n => negb (mem n reserved)) (names (segs_of k v)).
 Lemma pos_okb_ok k v tt : pos_okb k v tt = true -> pos_ok k v tt.
 Proof.
   unfold pos_okb, pos_ok. rewrite !andb_true_iff. intros [[[A B] C] D]. repeat split; auto.
@@ -249,12 +246,6 @@ Proof.
 Qed.
 Lemma mkind_eqb_eq a b : mkind_eqb a b = true -> a = b.
 Proof. destruct a, b; simpl; intro H; try discriminate; reflexivity. Qed.
-Definition simple_ruleb (rl : rule) : bool :=
-  pos_okb (r_sk rl) (r_sv rl) (r_stt rl) && pos_okb (r_pk rl) (r_pv rl) TIri && pos_okb (r_ok rl) (r_ov rl) (r_ott rl)
-  && (match r_ld rl with LDNone => mkind_eqb (r_ldk rl) KNone && ueqb (r_ldv rl) [] | _ => pos_okb (r_ldk rl) (r_ldv rl) TNone end)
-  && (if is_plain (r_gk rl) then pos_okb (r_gk rl) (r_gv rl) TIri && (negb (ueqb (r_gv rl) Tables.c_rml_default_graph) || mkind_eqb (r_gk rl) KConst)
-      else mkind_eqb (r_gk rl) KNone && ueqb (r_gv rl) [])
-  && plain_rule rl && (match r_sjoin rl with [] => true | _ => false end) && (match r_ojoin rl with [] => true | _ => false end).
 Lemma simple_ruleb_ok rl : simple_ruleb rl = true -> simple_rule rl.
 Proof.
   unfold simple_ruleb, simple_rule. rewrite !andb_true_iff. intros [[[[[[[A B] C] D] E] F] G] H].
